@@ -85,6 +85,10 @@ SPECS = [
     # inode tables of 26 blocks per group (not a multiple of the 8-block scan window), inodes in
     # use in groups 0 and 1
     dict(name="ext4_oddtable", kb=24576, args="-t ext4 -b 1024 -I 256 -g 8192 -N 312 -J size=1", tree="std"),
+    # bigalloc + quota, and a directory with 700 entries: clearing that directory makes e2fsck
+    # reconnect hundreds of inodes, i.e. grow lost+found by whole clusters and charge them to quota
+    dict(name="ext4_bigalloc_quota", kb=32768, args="-t ext4 -b 1024 -O bigalloc,quota -C 4096 -J size=1",
+         tree="tiny", extras=["manylinks"], quota_after=True),
     # external journal devices (s_first = 3 at 1k blocks, 2 at 4k): journal replay checks only
     dict(name="ext4_xj1k", kb=8192, big=True, args="-t ext4 -b 1024 -I 256", extjournal=2048, tree="tiny"),
     dict(name="ext4_xj4k", kb=16384, big=True, args="-t ext4 -b 4096 -I 256", extjournal=8192, tree="tiny"),
@@ -119,6 +123,13 @@ def make_host_tree(spec, dirpath, seed=0):
                 f.write(chunk[:min(left, len(chunk))])
                 left -= len(chunk)
         os.utime(p, (trees.MTIME_BASE, trees.MTIME_BASE))
+        os.utime(dirpath, (trees.MTIME_BASE, trees.MTIME_BASE))
+    if "manylinks" in spec.get("extras", []):
+        d = os.path.join(dirpath, "manylinks")
+        os.mkdir(d)
+        for i in range(700):
+            os.symlink("t%d" % i, os.path.join(d, "l%04d" % i))
+        os.utime(d, (trees.MTIME_BASE, trees.MTIME_BASE))
         os.utime(dirpath, (trees.MTIME_BASE, trees.MTIME_BASE))
     if "deepfile" in spec.get("extras", []):
         # > 340 extents at 1k blocks: extent tree of depth 2 / double-indirect for block maps
